@@ -21,6 +21,26 @@ CHECKS = {
     ),
 }
 
+CHECKS["C10"] = (
+    "exhaustive finite-domain enumeration of TimingMap/Snapper/Snap on the real code against exact Fraction integration",
+    "Every tempo list of the bounded families (1..3/4 changes; metronomes 1..8 with changes on measure lines; constant metronome with "
+    "changes anywhere on a quarter-beat grid; 3 initial offsets incl. negative) x every query tuple of length <=3/4 over positions "
+    "straddling every change (all multisets in all orders, duplicates) through offsets/snaps/beats; all 2807 Snapper fixpoints, a "
+    "20001-point nearest/idempotence sweep, Snap carry/add/sub/order on all position pairs for metronomes 1..8; BpmList.to_timing_map "
+    "under all row permutations.",
+    "Bounded value palettes (bpm, positions); 1e-6 ms tolerance against exact rational integration. Trusted: refs/timing.py.",
+    "DESIGN.md §4 C10",
+)
+CHECKS["C11"] = (
+    "exhaustive finite-domain enumeration of reseat (3 entry points) on the real code; clause oracle in exact Fractions",
+    "All tempo lists with 2..3/4 changes on a half/quarter-beat grid within 16 beats (metronomes 4 and 3, bpm palette) plus an "
+    "epsilon alphabet just after measure/beat lines, through reseat_bpm_changes_snap, from_bpm_changes_snap(reseat=True) and "
+    "TimingMap.reseat(); clauses: on a measure line, original change times kept, bpm kept where whole measures follow, at most one "
+    "insert per interval, re-reseat leaves bpm(t) unchanged.",
+    "'Randomly on finer grids' replaced by exhaustive grids + epsilon alphabet. Known open findings: the two 'extend' branches.",
+    "DESIGN.md §4 C11",
+)
+
 NOT_CLAIMED = {}
 
 
